@@ -72,9 +72,47 @@ pub fn reference(a: (i128, i128), s: (i128, i128), b: (i128, i128), inclusive: b
   if ascending { Want::Terms(terms) } else { Want::DescendingOrError(terms) }
 }
 
+impl C15 {
+  /// bounds that are not finite (NaN, +inf, -inf; built through helper variables) in every position of the four range forms, for both float
+  /// kinds: such a range cannot be built, the result must be an error or the empty vector - and the evaluation must return
+  fn nonfinite_unit(&mut self, unit: u64, out: &mut WorkerOut) {
+    let kind = if unit == 0 { "f64" } else { "f32" };
+    let names = ["nan", "pinf", "ninf", "lo", "hi"];
+    let forms: [(&str, bool); 4] = [("{a}..{b}", false), ("{a}..={b}", false), ("{a}..{s}..{b}", true), ("{a}..{s}..={b}", true)];
+    let mut s = Session::new();
+    for d in [format!("one<{}> := 1.0", kind), format!("zero<{}> := 0.0", kind), "nan := zero / zero".to_string(), "pinf := one / zero".to_string(), "ninf := (-one) / zero".to_string(), format!("lo<{}> := 1.0", kind), format!("hi<{}> := 3.0", kind), format!("st<{}> := 1.0", kind)] { s.run(&d); }
+    let mut n = 0;
+    for (form, stepped) in forms { for a in names { for b in names { for st in if stepped { vec!["st", "nan", "pinf", "ninf"] } else { vec![""] } {
+      let bounds_nonfinite = ["nan", "pinf", "ninf"].contains(&a) || ["nan", "pinf", "ninf"].contains(&b) || st == "nan";
+      if !bounds_nonfinite && !["pinf", "ninf"].contains(&st) { continue; }
+      let expr = form.replace("{a}", a).replace("{b}", b).replace("{s}", st);
+      n += 1;
+      out.evaluations += 1;
+      let o = s.run(&format!("r{} := {}", n, expr));
+      let case = format!("[{}] nan := 0/0; pinf := 1/0; ninf := -1/0; lo := 1.0; hi := 3.0; st := 1.0; r := {}", kind, expr);
+      match &o {
+        Outcome::Panic(m) => out.fail(format!("C15|panic|nonfinite:{}", kind), case, m.clone()),
+        Outcome::Value(c) => {
+          let len = match c.as_matrix() { Some((r, cc, _)) => r * cc, None => 1 };
+          // the statement fixes little for such ranges: an error, the empty vector, or terms of the progression - so a returned vector starts
+          // with the start value, holds no NaN and is not long; a NaN start or end denotes no progression at all
+          out.nontrivial += 1;
+          let elems: Vec<String> = match c.as_matrix() { Some((_, _, e)) => e.iter().map(|x| x.bare()).collect(), None => vec![c.bare()] };
+          let start_text = match a { "nan" => "NaN", "pinf" => "inf", "ninf" => "-inf", "lo" => "1.0", _ => "3.0" };
+          if len > 0 && (a == "nan" || b == "nan") { out.fail(format!("C15|invalid-nonempty|nan-bound:{}", kind), case, format!("a NaN start or end denotes no progression, got {}", c.short())); }
+          else if len > 0 && (elems[0] != start_text || elems.iter().any(|e| e == "NaN") || len > 64) { out.fail(format!("C15|wrong-elements|nonfinite:{}", kind), case, format!("not terms of the progression from {}: {}", start_text, c.short())); }
+          let _ = bounds_nonfinite;
+        }
+        _ => { out.nontrivial += 1; out.count("nonfinite_rejected"); }
+      }
+    } } } }
+  }
+}
+
 impl UnitRunner for C15 {
   fn unit(&mut self, payload: &str, unit: u64, out: &mut WorkerOut) {
     if payload == "resolve" { self.resolve_unit(unit, out); return; }
+    if payload == "nonfinite" { self.nonfinite_unit(unit, out); return; }
     let ki = (unit / 32) as usize;
     let ai = (unit % 32) as usize;
     if ki >= KINDS.len() { return; }
@@ -215,6 +253,7 @@ impl Check for C15 {
     rep.cov("bounds", json!({"kinds": KINDS, "pool_sizes": KINDS.iter().map(|k| pool(k, tier).len()).collect::<Vec<_>>() }));
     let mut jobs = range_jobs("", KINDS.len() as u64 * 32, 1);
     jobs.extend(range_jobs("resolve", 96, 8));
+    jobs.extend(range_jobs("nonfinite", 2, 1));
     drive_ranges(cfg, rep, jobs);
     let supported = rep.out.sets.get("supported_kinds").cloned().unwrap_or_default();
     let before = rep.out.failures.len();
